@@ -239,7 +239,7 @@ static void materialise(Ctx *x) {
         long ne = x->dbytes / f->w;
         if (c->d_pk == 2) {
             dirty_fill(x->dh, x->dbytes, f);
-            for (long i = 0; i < c->dxn && i < ne; i++) eset(x->dh, f->w, i, f->w == 4 ? widen_x(c->dx[i]) : c->dx[i]);
+            for (long i = 0; i < c->dxn && i < ne; i++) eset(x->dh, f->w, i, widen_e(c->dx[i], f->w));
         } else {
             dirty_fill(x->dh, x->dbytes, f);
             if (c->d_pk == 1) {
@@ -262,7 +262,7 @@ static void materialise(Ctx *x) {
         if (c->place == 0) memset(x->sh - 128, 0xEE, 128); else memset(x->sh + x->sbytes, 0xEE, 128);
         long ne = x->sbytes / f->sw;
         if (c->s_k == 2) {
-            for (long i = 0; i < ne; i++) eset(x->sh, f->sw, i, i < c->sxn ? (f->sw == 4 ? widen_x(c->sx[i]) : c->sx[i]) : 0xAA);
+            for (long i = 0; i < ne; i++) eset(x->sh, f->sw, i, i < c->sxn ? widen_e(c->sx[i], f->sw) : 0xAA);
         } else {
             for (long i = 0; i < ne; i++) eset(x->sh, f->sw, i, i < c->s_len ? pat(i, f->sw) : (i == c->s_len && c->s_term ? 0 : 'Z'));
         }
@@ -929,6 +929,24 @@ void gen_longcmp(int fi) {
     }
 }
 
+/* element comparisons around the sign bit: every pair of element values over {1, 0x7f.., 0x80.., 0xc0.., 0xff..} at every position of
+ * operands of 1..3 elements (the wide-character compare orders them as signed wchar_t, the 16/32-bit ones as unsigned) */
+void gen_signcmp(int fi) {
+    const Fn *f = &fntab[fi];
+    if (!has_tok(f, "K") || !has_tok(f, "T") || (f->flags & F_SAMELEN)) return;
+    static const unsigned char V[] = { 0x01, 0xF7, 0xF4, 0xF5, 0xF6 };
+    Case c;
+    for (int len = 1; len <= 3; len++) for (int pos = 0; pos < len; pos++) for (int a = 0; a < 5; a++) for (int b = 0; b < 5; b++) for (int place = 0; place < 2; place++) {
+        memset(&c, 0, sizeof c);
+        c.fn = fi; c.place = place; c.dmax = len; c.d_obj = len; c.d_pk = 2; c.s_k = 2; c.dxn = c.sxn = len;
+        for (int i = 0; i < len; i++) { c.dx[i] = 0x41 + i; c.sx[i] = 0x41 + i; }
+        c.dx[pos] = V[a]; c.sx[pos] = V[b];
+        if (pos + 1 < len) { c.dx[pos + 1] = V[b]; c.sx[pos + 1] = V[a]; }      /* a later difference of the opposite order must not decide */
+        c.s_obj = len; c.s_len = len; c.slen = len;
+        emit(&c);
+    }
+}
+
 /* ---------------------------------------------------------------- main */
 extern void fntab_init(void *lib);
 static void usage(void) { fprintf(stderr, "usage: cat run|replay ...\n"); exit(2); }
@@ -980,6 +998,7 @@ int main(int argc, char **argv) {
         if ((fntab[i].flags & F_QRY) && (P == 2)) gen_query(i);
         if (P == 1 || P == 2 || P == 6 || P == 12) gen_prims(i);
         if (P == 10 || P == 2) gen_longcmp(i);
+        if (P == 10) gen_signcmp(i);
         if (P == 10 || P == 1 || P == 2 || P == 5) gen_foldcmp(i);
         printf("{\"t\":\"fn\",\"fn\":\"%s\",\"evaluations\":%ld}\n", fntab[i].name, n_eval - e0);
     }
